@@ -33,33 +33,34 @@ VARIABLES
   phase,     \* "h1" | "h4" | "body" | "done"
   need,      \* bytes still missing for the current _sockRecvAll request
   rec,       \* index of the record being read
+  base,      \* bytes of the stream before record `rec` (running total, avoids recomputation)
   out,       \* number of records handed upward
   lastWB,    \* the last OS recv reported would-block (and nothing happened since)
   yields,    \* 1 iff the generator has yielded 0 and was not resumed into an I/O call yet
   nwb
-rvars == <<bodies, arrived, taken, bsbuf, phase, need, rec, out, lastWB, yields, nwb>>
+rvars == <<bodies, arrived, taken, bsbuf, phase, need, rec, base, out, lastWB, yields, nwb>>
 
 StreamLen == Total(bodies, Len(bodies))
 Max(a, b) == IF a > b THEN a ELSE b
 Min(a, b) == IF a < b THEN a ELSE b
 
 RInitWith(b) == /\ bodies = b /\ arrived = 0 /\ taken = 0 /\ bsbuf = 0 /\ phase = IF Len(bodies) = 0 THEN "done" ELSE "h1"
-         /\ need = 1 /\ rec = 1 /\ out = 0 /\ lastWB = FALSE /\ yields = 0 /\ nwb = 0
+         /\ need = 1 /\ rec = 1 /\ base = 0 /\ out = 0 /\ lastWB = FALSE /\ yields = 0 /\ nwb = 0
 
 \* the network delivers more bytes
 Arrive == /\ arrived < StreamLen
           /\ \E k \in 1..(StreamLen - arrived) : arrived' = arrived + k
-          /\ UNCHANGED <<bodies, taken, bsbuf, phase, need, rec, out, lastWB, yields, nwb>>
+          /\ UNCHANGED <<bodies, taken, bsbuf, phase, need, rec, base, out, lastWB, yields, nwb>>
 
 \* request satisfied: move to the next phase
 Advance(b, n) ==   \* b = new bsbuf, n = new need after consuming
-  IF n > 0 THEN /\ need' = n /\ UNCHANGED <<phase, rec, out>>
-  ELSE CASE phase = "h1" -> /\ phase' = "h4" /\ need' = 4 /\ UNCHANGED <<rec, out>>
+  IF n > 0 THEN /\ need' = n /\ UNCHANGED <<phase, rec, base, out>>
+  ELSE CASE phase = "h1" -> /\ phase' = "h4" /\ need' = 4 /\ UNCHANGED <<rec, base, out>>
          [] phase = "h4" -> IF bodies[rec] = 0
-                            THEN /\ out' = out + 1 /\ rec' = rec + 1 /\ need' = 1
+                            THEN /\ out' = out + 1 /\ rec' = rec + 1 /\ need' = 1 /\ base' = base + HDR
                                  /\ phase' = IF rec = Len(bodies) THEN "done" ELSE "h1"
-                            ELSE /\ phase' = "body" /\ need' = bodies[rec] /\ UNCHANGED <<rec, out>>
-         [] phase = "body" -> /\ out' = out + 1 /\ rec' = rec + 1 /\ need' = 1
+                            ELSE /\ phase' = "body" /\ need' = bodies[rec] /\ UNCHANGED <<rec, base, out>>
+         [] phase = "body" -> /\ out' = out + 1 /\ rec' = rec + 1 /\ need' = 1 /\ base' = base + HDR + bodies[rec]
                               /\ phase' = IF rec = Len(bodies) THEN "done" ELSE "h1"
 
 \* BufferedSocket.recv(need): serve from the buffer if it is not empty ...
@@ -88,21 +89,22 @@ OSRecvWB ==
   /\ (arrived = taken \/ nwb < MaxWB)
   /\ nwb' = IF arrived > taken THEN nwb + 1 ELSE nwb
   /\ lastWB' = TRUE /\ yields' = 0
-  /\ UNCHANGED <<bodies, arrived, taken, bsbuf, phase, need, rec, out>>
+  /\ UNCHANGED <<bodies, arrived, taken, bsbuf, phase, need, rec, base, out>>
 
 \* the generator yields 0 to its caller and is resumed later
 Yield0 == /\ lastWB /\ yields' = 1 /\ lastWB' = FALSE
-          /\ UNCHANGED <<bodies, arrived, taken, bsbuf, phase, need, rec, out, nwb>>
+          /\ UNCHANGED <<bodies, arrived, taken, bsbuf, phase, need, rec, base, out, nwb>>
 
 RNext == Arrive \/ ServeFromBuffer \/ OSRecv \/ OSRecvWB \/ Yield0
 RSpec(b) == RInitWith(b) /\ [][RNext]_rvars
 
 \* ---- properties of the reader
 \* every byte taken from the socket is either buffered, part of the pending request, or in a delivered record
-ConsumedBefore == Total(bodies, rec - 1) +
+ConsumedBefore == base +
    (CASE phase = "h1" -> 1 - need [] phase = "h4" -> 1 + 4 - need
       [] phase = "body" -> HDR + bodies[rec] - need [] OTHER -> 0)
-NoByteLostOrDup == taken = bsbuf + (IF phase = "done" THEN StreamLen ELSE ConsumedBefore)
+NoByteLostOrDup == taken = bsbuf + (IF phase = "done" THEN base ELSE ConsumedBefore)
+BaseIsTotal == base = Total(bodies, rec - 1)      \* checked in model checking only
 \* records are handed upward exactly at record boundaries of the stream, in order
 StreamIndependence == out = (IF phase = "done" THEN Len(bodies) ELSE rec - 1)
 \* when the whole stream has arrived the reader can always finish (no lost wake-up): checked as
@@ -112,5 +114,5 @@ NoStuck == (phase # "done" /\ arrived = StreamLen) => (ENABLED ServeFromBuffer \
 \* a 0 is yielded only directly after a would-block recv
 YieldDiscipline == [][yields' > yields => lastWB]_rvars
 \* every resume performs a socket call before the next yield: no spinning
-NoSpin == [][yields = 1 => yields' = 0 \/ UNCHANGED <<bodies, taken, bsbuf, phase, need, rec, out, lastWB, yields, nwb>>]_rvars
+NoSpin == [][yields = 1 => yields' = 0 \/ UNCHANGED <<bodies, taken, bsbuf, phase, need, rec, base, out, lastWB, yields, nwb>>]_rvars
 =============================================================================
